@@ -720,6 +720,8 @@ def run_case(ctx, case):
     stats = {}
     div = check_msg(ctx, case, stats)
     wire, ref = stats.get("wire", b""), stats.get("ref")
+    if case.get("tag"):
+        ctx.count(case["tag"])
     for sec in ("an", "ns", "ar"):
         for rr in case[sec]:
             ctx.count("rr=" + rr[3])
@@ -1049,7 +1051,62 @@ def _shard(sub, i):
             return
 
 
+# One sample record of every type, for the complete truncation scope.
+TRUNC_SAMPLES = {
+    "A": [b"\x01\x02\x03\x04"], "AAAA": [bytes(range(16))], "NULL": [b"null", 2], "WKS": [b"\x01\x02\x03\x04", 6, b"\x00\x20\x01"],
+    "HINFO": [b"cpu", b"os"], "TXT": [[b"ab", b"", b"cde"]], "SPF": [[b"v=spf1", b"-all"]], "SSHFP": [1, 2, b"\x11" * 6],
+    "SOA": [b"ns.s.test", b"who.s.test", 1, 2, 3, 4, 5], "MINFO": [b"r.s.test", b"e.s.test"], "RP": [b"m.s.test", b"t.s.test"],
+    "MX": [10, b"mx.s.test"], "AFSDB": [1, b"afs.s.test"], "SRV": [1, 2, 3, b"srv.s.test"],
+    "NAPTR": [1, 2, b"u", b"sip", b"!.!", b"rep.s.test"], "A6": [8, bytes([0] + [7] * 15), b"pre.s.test"],
+    "TSIG": [b"hmac.s.test", 123456, 300, b"mac!", 7, 0, b"oth"], "UNKNOWN": [65280, b"blob!"],
+    "OPT": [4096, 1, 0, 1, [[3, b"nsid"], [10, b"cookie12"]]],
+}
+for _t in SINGLE_NAME:
+    TRUNC_SAMPLES[_t] = [b"host.s.test"]
+
+
+def truncation_scope():
+    """For one record of every type: a message [question, A, that record, A] under
+    EVERY size limit from 12 up to its full length, so the cut falls at every
+    octet of the record's owner name, fixed header and RDATA (and of the records
+    around it).  Each case is tagged with where the cut lands."""
+    hdr = dict(id=0x4321, answer=1, opCode=0, recDes=1, recAv=1, auth=1, rCode=0, trunc=0, authenticData=0, checkingDisabled=0)
+    a = [b"a.s.test", 1, 60, "A", [b"\x0a\x00\x00\x01"]]
+    for tname in sorted(TRUNC_SAMPLES):
+        rr = [b"" if tname == "OPT" else b"o.s.test", 1, 60, tname, TRUNC_SAMPLES[tname]]
+        base = dict(kind="msg", hdr=hdr, q=[[b"s.test", 255, 1]], an=[a] if tname == "OPT" else [a, rr, a],
+                    ns=[], ar=[rr, a] if tname == "OPT" else [])
+        full = encode_case(dict(base, limit=["abs", 0]))
+        ref = Ref(full)
+        try:
+            ref.parse()
+        except RefError:
+            pass                                        # a broken encoder: run_case will say so
+        ok = ref.complete and len(ref.marks["rdlen"]) >= 2
+        rl = ref.marks["rdlen"][1] if ok else 0         # RDLENGTH field of the sampled record
+        rdlen = int.from_bytes(full[rl:rl + 2], "big")
+        rr_start = ref.marks["rdlen"][0] + 2 + 4 if ok else 0   # the first A record ends here
+        for limit in range(12, len(full) + 1):
+            if not ok:
+                where = "untagged"
+            elif limit < rr_start:
+                where = "before-the-record"
+            elif limit < rl + 2:
+                where = "in-owner-or-fixed-header"
+            elif limit < rl + 2 + rdlen:
+                where = "in-rdata"                      # includes 'exactly at the start of RDATA'
+            elif limit < len(full):
+                where = "after-the-record"
+            else:
+                where = "fits"
+            yield dict(base, limit=["abs", limit], tag=f"cut:{where}:{tname}" if where == "in-rdata" else f"cut:{where}")
+
+
 def run(ctx):
+    # complete small scope: every size limit for one record of every type
+    enumerate_run(ctx, truncation_scope(), run_case)
+    if ctx.has_violation():
+        return
     # complete small scope: every unrepresentable dot pattern up to 6 bytes, in every place a name is encoded
     enumerate_run(ctx, [dict(kind="badname", name=n, where=w) for n in dot_pattern_names()
                         for w in ("query", "owner", "rdata-NS", "rdata-SRV")], run_case)
@@ -1064,7 +1121,7 @@ def run(ctx):
                          an=[[b"pad.example", 1, 0, "NULL", [b"\xaa", 0]], [b"late.zone", 1, 0, "A", [b"\x7f\x00\x00\x01"]]],
                          ns=[], ar=[[b"late.zone", 1, 0, "MX", [10, b"mx.late.zone"]]], pad_to=[0, d]))
     enumerate_run(ctx, edge, run_case)
-    ctx.extra["small_scope"] = "all byte strings over {a, .} up to 6 bytes with an empty label in front, inside or at the end (single trailing dot and the root excluded: representable), as query name, owner, compressed and uncompressed rdata name"
+    ctx.extra["small_scope"] = "every size limit 12..full length for [question, A, one sample record of each of 28 types, A] (the cut lands on every octet of every record type's RDATA); all byte strings over {a, .} up to 6 bytes with an empty label in front, inside or at the end (single trailing dot and the root excluded: representable), as query name, owner, compressed and uncompressed rdata name"
     if ctx.has_violation():
         return
     if ctx.thorough:
